@@ -31,7 +31,15 @@ RELNAME = {"M": "IR.modules", "S": "Module.sections", "Y": "Module.symbols",
 SET_RELS = [("M", "sections", "S"), ("M", "symbols", "Y"),
             ("M", "proxies", "P"), ("S", "byte_intervals", "I"),
             ("I", "blocks", "CD")]
-NAMES = ["", "a", "b", "main"]
+NAMES = ["", "a", "b", "main", "main_entry_point_of_the_program"]
+
+
+def fresh(name):
+    """An equal but distinct string object (identifier-like literals are
+    interned, so two of them are also identical; names computed at run time,
+    as names read from a file are, are not)."""
+    return bytes(name, "utf-8").decode("utf-8") if len(name) > 1 else name
+
 # how a batch of values is handed to a collection method: re-iterable
 # containers and one-shot iterators (a fresh one is made per call)
 def jx(i):
@@ -188,10 +196,10 @@ class World:
             a = {"aux_keys": []}
             o = gt.IR(uuid=u)
         elif kind == "M":
-            a = {"name": rnd.choice(NAMES), "aux_keys": []}
+            a = {"name": fresh(rnd.choice(NAMES)), "aux_keys": []}
             o = gt.Module(name=a["name"], uuid=u, ir=pobj, **extra)
         elif kind == "S":
-            a = {"name": rnd.choice(NAMES), "flags": frozenset()}
+            a = {"name": fresh(rnd.choice(NAMES)), "flags": frozenset()}
             o = gt.Section(name=a["name"], uuid=u, module=pobj, **extra)
         elif kind == "I":
             a = {"address": rnd.choice([None, rnd.randint(0, 40)]),
@@ -206,7 +214,7 @@ class World:
         elif kind == "P":
             o = gt.ProxyBlock(uuid=u, module=pobj)
         elif kind == "Y":
-            a = {"name": rnd.choice(NAMES), "at_end": False,
+            a = {"name": fresh(rnd.choice(NAMES)), "at_end": False,
                  "payload": None}
             pay = extra.pop("payload_lid", None)
             if pay is not None:
@@ -1156,7 +1164,7 @@ class World:
                          "value_none", "at_end"])
         old = a["payload"]
         if op == "rename":
-            nm = rnd.choice(NAMES)
+            nm = fresh(rnd.choice(NAMES))
             self.log(op="sym.rename", sym=y, name=nm)
             o.name = nm
             a["name"] = nm
@@ -1215,14 +1223,14 @@ class World:
                 a["flags"] = frozenset(x.name for x in o.flags) if False \
                     else (a["flags"] ^ {f.name})
             else:
-                nm = rnd.choice(NAMES)
+                nm = fresh(rnd.choice(NAMES))
                 self.log(op="attr.name", node=l, name=nm)
                 o.name = nm
                 a["name"] = nm
         elif k == "M":
             which = rnd.choice(["name", "aux"])
             if which == "name":
-                nm = rnd.choice(NAMES)
+                nm = fresh(rnd.choice(NAMES))
                 self.log(op="attr.name", node=l, name=nm)
                 o.name = nm
                 a["name"] = nm
